@@ -168,32 +168,66 @@ func hasSurrogateEscape(u []byte) bool {
 	return false
 }
 
-// inner: body of the inner literal (encoding/json must accept "inner")
+var apiUnicodeErrors = sonic.Config{UseUnicodeErrors: true}.Froze()
+
+// what encoding/json's rules give for a `,string` field when lone surrogates are errors instead of U+FFFD
+func refTwiceStrict(enc []byte) (string, bool) {
+	l1, ok := refUnquote(enc, false)
+	if !ok || len(l1) < 2 || l1[0] != '"' || l1[len(l1)-1] != '"' {
+		return "", false
+	}
+	l2, ok := refUnquote(l1[1:len(l1)-1], false)
+	return string(l2), ok
+}
+
+// inner: body of the inner literal (encoding/json must accept "inner").  Every document is also a tied case of the
+// model of the jitdec path (op JS), so that a known divergence from encoding/json is excused only where the
+// implementation does exactly what the model predicts.
 func throughDouble(inner []byte) {
 	lit := append(append([]byte{'"'}, inner...), '"')
 	for vi, enc := range [][]byte{outerCanonical(lit), outerAlt(lit)} {
 		doc := append(append([]byte(`{"S":"`), enc...), `"}`...)
-		var a, b strTag
-		e1 := json.Unmarshal(doc, &a)
-		if e1 != nil {
+		var a strTag
+		if json.Unmarshal(doc, &a) != nil {
 			continue // not in encoding/json's language
 		}
-		current.Store("double " + hx(doc))
-		e2 := sonic.Unmarshal(doc, &b)
-		current.Store("")
-		S.count("sonic.Unmarshal(,string) vs std", doc)
-		if e2 != nil || a.S != b.S {
-			class := "other"
-			switch {
-			case vi == 1 && (bytes.Contains(enc, []byte(`\u0022`)) || bytes.Contains(enc, []byte(`\u005c`)) || bytes.Contains(enc, []byte(`\/`))):
-				class = "outer-noncanonical-escape"
-			case vi == 0 && hasSurrogateEscape(inner):
-				class = "inner-surrogate-escape"
-			case vi == 0 && bytes.Contains(inner, []byte(`\/`)):
-				class = "inner-escaped-slash"
+		for ue := 0; ue < 2; ue++ {
+			want, wantOK := a.S, true
+			if ue == 1 {
+				want, wantOK = refTwiceStrict(enc)
 			}
-			S.fail("through-double-vs-std", "inner", hx(inner), "doc", hx(doc), "std", hx([]byte(a.S)), "sonic", hx([]byte(b.S)),
-				"err", fmt.Sprint(e2), "backend", *label, "class", class, "variant", itoa(vi))
+			var b strTag
+			var e2 error
+			current.Store("double " + hx(doc))
+			if ue == 0 {
+				e2 = sonic.Unmarshal(doc, &b)
+			} else {
+				e2 = apiUnicodeErrors.Unmarshal(doc, &b)
+			}
+			current.Store("")
+			S.count("sonic.Unmarshal(,string) vs std", doc)
+			if *label != "optdec" {
+				if e2 == nil {
+					S.tie([]string{"JS", itoa(ue), hx(enc)}, []string{"ok", hx([]byte(b.S))})
+				} else {
+					S.tie([]string{"JS", itoa(ue), hx(enc)}, []string{"err"})
+				}
+			}
+			if (e2 == nil) != wantOK || (wantOK && want != b.S) {
+				class := "other"
+				switch {
+				case *label == "optdec" && ue == 1 && e2 == nil && b.S == a.S:
+					// observed = exactly what encoding/json returns: optdec hands the inner literal to json.Unmarshal,
+					// which knows nothing of UseUnicodeErrors (same root cause as the ill-formed UTF-8 finding)
+					class = "optdec-json-semantics"
+				case vi == 1 && (bytes.Contains(enc, []byte(`\u0022`)) || bytes.Contains(enc, []byte(`\u005c`)) || bytes.Contains(enc, []byte(`\/`))):
+					class = "outer-noncanonical-escape"
+				case vi == 0 && hasSurrogateEscape(inner):
+					class = "inner-surrogate-escape"
+				}
+				S.fail("through-double-vs-std", "inner", hx(inner), "body", hx(enc), "doc", hx(doc), "want", fmt.Sprint(wantOK, hx([]byte(want))), "sonic", hx([]byte(b.S)),
+					"err", fmt.Sprint(e2), "backend", *label, "class", class, "variant", itoa(vi), "unicode_errors", itoa(ue))
+			}
 		}
 	}
 }
